@@ -155,8 +155,28 @@ func (r *schemaLoader) resolveRef(ref *Ref, target interface{}, basePath string)
 		if err != nil {
 			return err
 		}
+
+		if isAbsent(res) {
+			// on a typed document, the pointer may land on a member that is not set
+			return fmt.Errorf("JSON pointer %q designates nothing: %w", ref.GetPointer().String(), ErrSpec)
+		}
 	}
 	return swag.DynamicJSONToStruct(res, target)
+}
+
+// isAbsent tells whether the value found by a JSON pointer is an unset member (e.g. a nil pointer, map or slice
+// in a typed document) rather than an actual JSON value.
+func isAbsent(v interface{}) bool {
+	if v == nil {
+		return true
+	}
+
+	switch rv := reflect.ValueOf(v); rv.Kind() {
+	case reflect.Ptr, reflect.Map, reflect.Slice, reflect.Interface:
+		return rv.IsNil()
+	default:
+		return false
+	}
 }
 
 func (r *schemaLoader) load(refURL *url.URL) (interface{}, url.URL, bool, error) {
